@@ -42,7 +42,10 @@ class ShortLinkControl(BitsInterface):
             )
             self.crc_ok: bool = True
         else:
-            self.crc_ok: bool = CRC8.check(self.as_bits()[:28], ba2int(self.crc_8bit))
+            # crc_8bit holds the checksum bits in on-air (LSB first) order, see test_vbptc_68_36
+            self.crc_ok: bool = self.crc_8bit == int2ba(
+                CRC8.calculate(self.as_bits()[:28]), length=8, endian="little"
+            )
 
     def __repr__(self) -> str:
         descr: str = f"[{self.slco}]"
